@@ -430,6 +430,10 @@ def build_job1(job):
     job["t_make"] = time.time() - t0
     errs = [l for l in bout.split("\n") if re.search(r"\berror\b|undefined reference|multiple definition|No rule to make|\*\*\*", l)]
     job["build_rc"], job["build_log"], job["warnings"] = brc, "\n".join(errs[:12]) if errs else bout[-1500:], len(re.findall(r"warning:", bout))
+    # observation for DESIGN.md section 9 item 17 (not part of the verdict): do ALL emitted objects link together?
+    if brc == 0 and job.get("oi") == 0:
+        arc, aout, aerr = run("gcc -o allobjs $(ls *.o) -lm 2>&1 | grep -c 'undefined reference'", d, timeout=120)
+        job["allobj_undefined"] = int(aout.strip() or 0) if aout.strip().isdigit() else -1
     # headers as C++
     hs = sorted(f for f in os.listdir(d) if f.endswith(".h"))
     open(os.path.join(d, "cxx_all.cpp"), "w").write("".join('#include "%s"\n' % h for h in hs) + "int main() { return 0; }\n")
